@@ -120,6 +120,15 @@ func parseStream(out []byte, writes []wrec) ([]*frame, error) {
 	}
 }
 
+func allNull(ids []string) bool {
+	for _, id := range ids {
+		if id != "null" {
+			return false
+		}
+	}
+	return true
+}
+
 func sig(ids []string) string {
 	s := append([]string{}, ids...)
 	sort.Strings(s)
@@ -318,6 +327,58 @@ type batchExp struct {
 	matched int
 }
 
+// classifyPartial names a batch reply that carries only part (possibly nothing) of what batch
+// unit ui must be answered with, under a request timeout. The known same-instant race
+// (NOTES.md, keyBatchPartial) has an exact signature: the reply was written by the processing
+// goroutine (no timeout error entry in it), a timeout-vs-return race was armed in the unit, and
+// every lost call that runs a method was never started. Anything else gets the generic key.
+func classifyPartial(p *Plan, w *world, res *simcore.Result, ui int, x *unitExpect, ids []string, f *frame) (string, *simcore.Violation) {
+	var lost []string
+	left := map[string]int{}
+	for _, id := range x.batchIDs {
+		left[id]++
+	}
+	for _, id := range ids {
+		left[id]--
+	}
+	for _, id := range x.batchIDs {
+		if left[id] > 0 {
+			lost = append(lost, id)
+			left[id] = 0
+		}
+	}
+	const generic = "missing-response:batch-entries-unanswered"
+	key := keyBatchPartial
+	if !w.racy[ui] {
+		key = generic
+	}
+	raw := "(nothing written)"
+	if f != nil {
+		raw = string(f.raw)
+		for _, r := range f.objs {
+			if r.Error != nil && r.Error.Code == -32002 {
+				key = generic
+			}
+		}
+	}
+	for _, id := range lost {
+		for _, e := range x.entryByID[id] {
+			if e.runsMethod() && w.invoked[e.Name] > 0 && len(x.entryByID[id]) == 1 {
+				key = generic
+			}
+		}
+	}
+	if key == keyBatchPartial {
+		if u := &p.Units[ui]; u.CtxTimeoutMS > 0 && (u.WriteTimeoutMS == 0 || u.CtxTimeoutMS <= u.WriteTimeoutMS-100) {
+			res.Probe("batch-partial-reply:context-deadline-tie")
+		} else {
+			res.Probe("batch-partial-reply:timeout-cancel-vs-return")
+		}
+	}
+	return key, viol(oracleMissing, key, "batch unit %d: the reply carries %q, the entries with ids %q were never answered (request timeout / context deadline hit while the batch was being processed): %s",
+		ui, ids, lost, raw)
+}
+
 type notifParams struct {
 	Subscription string     `json:"subscription"`
 	Result       *evPayload `json:"result"`
@@ -511,46 +572,11 @@ func judge(p *Plan, o *obs, deadlock string, res *simcore.Result) *simcore.Resul
 					// written by the processing goroutine after it saw the cancelled context,
 					// without error entries for the calls it never started
 					if pb := partialOf(ids, batches, func(ui int) []string { return xs[ui].batchIDs }, timeoutPossible); pb >= 0 {
-						var lost []string
-						left := map[string]int{}
-						for _, id := range xs[batches[pb].ui].batchIDs {
-							left[id]++
-						}
-						for _, id := range ids {
-							left[id]--
-						}
-						for _, id := range xs[batches[pb].ui].batchIDs {
-							if left[id] > 0 {
-								lost = append(lost, id)
-								left[id] = 0
-							}
-						}
-						// The known same-instant race (NOTES.md) has this exact signature: the array was
-						// written by the processing goroutine (no timeout error entry in it), a
-						// timeout-vs-return race was armed in the unit, and every lost call that runs a
-						// method was never started. Anything else gets the generic key.
-						key := keyBatchPartial
-						if !w.racy[batches[pb].ui] {
-							key = "missing-response:batch-entries-unanswered"
-						}
-						for _, r := range f.objs {
-							if r.Error != nil && r.Error.Code == -32002 {
-								key = "missing-response:batch-entries-unanswered"
-							}
-						}
-						for _, id := range lost {
-							for _, e := range xs[batches[pb].ui].entryByID[id] {
-								if e.runsMethod() && w.invoked[e.Name] > 0 && len(xs[batches[pb].ui].entryByID[id]) == 1 {
-									key = "missing-response:batch-entries-unanswered"
-								}
-							}
-						}
-						v := viol(oracleMissing, key, "batch unit %d: the single reply array carries %q, the calls with ids %q were never answered (request timeout / context deadline hit while the batch was being processed): %s",
-							batches[pb].ui, ids, lost, f.raw)
+						b := batches[pb]
+						key, v := classifyPartial(p, w, res, b.ui, xs[b.ui], ids, f)
 						if key == keyBatchPartial && simcore.IsKnown(keyBatchPartial) {
 							res.KnownHit(keyBatchPartial)
-							batches[pb].matched++
-							lh = lh.String("A*")
+							b.matched++
 							continue
 						}
 						fail(v)
@@ -586,13 +612,16 @@ func judge(p *Plan, o *obs, deadlock string, res *simcore.Result) *simcore.Resul
 						id = "null"
 					}
 					if x.tooLarge {
+						if allNull(x.batchIDs) {
+							continue // an all-null reply cannot be attributed to one batch
+						}
 						if r.Error == nil || r.Error.Code != -32600 {
 							fail(viol(oracleContent, oracleContent, "over-limit batch unit %d must be answered with one invalid-request error: %s", hit.ui, f.raw))
 							return res
 						}
 						continue
 					}
-					if es := x.entryByID[id]; len(es) == 1 {
+					if es := x.entryByID[id]; len(es) == 1 && !allNull(x.batchIDs) {
 						if msg := checkContent(p, u, es[0], r, timeoutPossible(hit.ui)); msg != "" {
 							fail(viol(oracleContent, oracleContent, "batch unit %d entry %s (id %s): %s; got %s", hit.ui, es[0].Name, id, msg, f.raw))
 							return res
@@ -609,7 +638,9 @@ func judge(p *Plan, o *obs, deadlock string, res *simcore.Result) *simcore.Resul
 						res.Fault("timeout-fired")
 					}
 				}
-				lh = lh.String("A").U64(uint64(hit.ui))
+				if !w.racy[hit.ui] {
+					lh = lh.String("A").U64(uint64(hit.ui))
+				}
 				continue
 			}
 			r := f.objs[0]
@@ -676,7 +707,7 @@ func judge(p *Plan, o *obs, deadlock string, res *simcore.Result) *simcore.Resul
 					subResp[sid] = fi
 				}
 			}
-			if es := entryOfSingle[id]; len(es) == 1 && expSingles[id] == 1 {
+			if es := entryOfSingle[id]; len(es) == 1 && expSingles[id] == 1 && id != "null" {
 				ui := unitOfSingle[id]
 				if msg := checkContent(p, &p.Units[ui], es[0], r, timeoutPossible(ui)); msg != "" {
 					fail(viol(oracleContent, oracleContent, "unit %d entry %s (id %s): %s; got %s", ui, es[0].Name, id, msg, f.raw))
@@ -684,10 +715,9 @@ func judge(p *Plan, o *obs, deadlock string, res *simcore.Result) *simcore.Resul
 				}
 			}
 			cls := classOf(r)
-			if ui, ok := unitOfSingle[id]; ok && w.racy[ui] {
-				cls = "*"
+			if ui, ok := unitOfSingle[id]; !ok || !w.racy[ui] {
+				lh = lh.String("S").String(id).String(cls)
 			}
-			lh = lh.String("S").String(id).String(cls)
 			st = st.String(cls)
 			if r.Error != nil && r.Error.Code == -32002 {
 				res.Fault("timeout-fired")
@@ -771,6 +801,17 @@ func judge(p *Plan, o *obs, deadlock string, res *simcore.Result) *simcore.Resul
 				if !exactly {
 					res.Probe("unanswered-at-teardown")
 					continue
+				}
+				if timeoutPossible(b.ui) {
+					// the empty variant of the partial reply: nothing had been collected when the
+					// processing goroutine saw the cancelled context, so nothing was written
+					key, v := classifyPartial(p, w, res, b.ui, xs[b.ui], nil, nil)
+					if key == keyBatchPartial && simcore.IsKnown(keyBatchPartial) {
+						res.KnownHit(keyBatchPartial)
+						continue
+					}
+					fail(v)
+					return res
 				}
 				fail(viol(oracleMissing, oracleMissing, "batch unit %d (ids %q) was never answered", b.ui, xs[b.ui].batchIDs))
 				return res
@@ -877,12 +918,25 @@ func judge(p *Plan, o *obs, deadlock string, res *simcore.Result) *simcore.Resul
 			}
 		}
 	}
+	// A same-instant race (not decided by the simulator) changes which gates are reached
+	// afterwards, hence the tape positions of everything that follows: in such runs the
+	// determinism fingerprint keeps only what is still decided (per-unit outputs of the other
+	// units, the set of their invocations), not the released-gate sequence.
+	inv := []string{}
 	for _, n := range w.invLog {
 		if !w.racy[w.unitOf[n]] {
-			lh = lh.String(n)
+			inv = append(inv, n)
 		}
 	}
-	res.LogHash = uint64(lh.U64(res.SchedFP))
+	if len(w.racy) > 0 {
+		sort.Strings(inv)
+	} else {
+		lh = lh.U64(res.SchedFP)
+	}
+	for _, n := range inv {
+		lh = lh.String(n)
+	}
+	res.LogHash = uint64(lh)
 	res.StateFP = uint64(st)
 	res.NonTrivial = (o.sched != nil && o.sched.Choices() >= 2) || res.Faults["timeout-fired"] > 0
 	return res
